@@ -1,7 +1,7 @@
 """Arithmetic / comparison semantics over the value domain (exact reals, mathematical ints, numpy broadcasting)."""
 from fractions import Fraction
 import z3
-from .vals import SV, Opt, Inf, Vec, Mat, Unsupported, is_num, z3num, StrS, fresh, to_frac, EnumVal
+from .vals import SV, Opt, Inf, Vec, Mat, Unsupported, is_num, z3num, StrS, fresh, to_frac, EnumVal, EnumSym
 
 R = z3.RealSort()
 I = z3.IntSort()
@@ -316,6 +316,12 @@ class Ops:
             if isinstance(a, SV) or isinstance(b, SV):
                 return False
             return a is None and b is None
+        if isinstance(a, EnumSym) or isinstance(b, EnumSym):
+            ca = a.t if isinstance(a, EnumSym) else (z3.IntVal(a.code) if isinstance(a, EnumVal) else None)
+            cb = b.t if isinstance(b, EnumSym) else (z3.IntVal(b.code) if isinstance(b, EnumVal) else None)
+            if ca is None or cb is None:
+                return False              # an enum member never equals a non-member
+            return mk(ca == cb)
         if isinstance(a, EnumVal) or isinstance(b, EnumVal):
             if isinstance(a, EnumVal) and isinstance(b, EnumVal):
                 return a == b
@@ -425,6 +431,10 @@ class Ops:
             return Opt(z3.simplify(z3.If(c, an, bn)), v)
         if isinstance(a, Inf) or isinstance(b, Inf):
             raise Unsupported('ite with inf')
+        if isinstance(a, (EnumVal, EnumSym)) and isinstance(b, (EnumVal, EnumSym)):
+            ta = a.t if isinstance(a, EnumSym) else z3.IntVal(a.code)
+            tb = b.t if isinstance(b, EnumSym) else z3.IntVal(b.code)
+            return EnumSym(a.cls, z3.simplify(z3.If(c, ta, tb)))
         if isinstance(a, EnumVal):
             a = a.code
         if isinstance(b, EnumVal):
